@@ -2,7 +2,7 @@
 //! reached (arrays by value / by reference / as views, datasets, datasets with `CountedTargets`,
 //! slices) is a numbered *form*; the property promises the same value through each of them.
 //! This file only *calls* linfa; oracles and generators stay in `c05.rs`.
-use linfa::dataset::{CountedTargets, Label};
+use linfa::dataset::{AsTargetsMut, CountedTargets, Label};
 use linfa::prelude::*;
 use ndarray::{s, Array1, Array2, ArrayView1, ShapeBuilder};
 use std::fmt::Display;
@@ -157,6 +157,15 @@ pub fn call_cm<L: CmLabel>(form: usize, pred: &[L], truth: &[L]) -> Res<Confusio
         }
         _ => unreachable!("cm form"),
     }
+}
+
+/// a `CountedTargets` whose label counts were taken on `cached` and whose targets were then
+/// overwritten with `pred` through `as_targets_mut` (the counts are not refreshed): the receiver's
+/// `Labels::label_set` is the label set of `cached`, not of the data
+pub fn call_cm_stale(cached: &[usize], pred: &[usize], truth: &[usize]) -> Res<ConfusionMatrix<usize>> {
+    let mut ct = CountedTargets::new(Array1::from(cached.to_vec()));
+    ct.as_targets_mut().assign(&Array1::from(pred.to_vec()));
+    ct.confusion_matrix(&Array1::from(truth.to_vec()))
 }
 
 // ------------------------------------------------------------------ ROC / log-loss
